@@ -22,6 +22,9 @@ func run(c *hc.Ctx) {
 	if only("proto") {
 		protocol(c)
 	}
+	if only("protom") {
+		pathProtocol(c)
+	}
 	if only("flat") {
 		regionFlat(c)
 	}
@@ -369,6 +372,95 @@ func protocol(c *hc.Ctx) {
 			if nj < len(segs)-1 || (closed && nj < len(segs)) {
 				c.Count("proto:general some-smooth-junction")
 			}
+		}
+	}
+}
+
+// pathProtocol: whole paths with several subpaths (dashes, builder-made mixtures) through the PUBLIC
+// API only: Stroke with recording Capper/Joiner (FastStroke on, so that the contours of the outline
+// are not merged by settling) and Offset; compared with the path-level skeleton (PROTOM).
+func pathProtocol(c *hc.Ctx) {
+	defer func(old bool) { canvas.FastStroke = old }(canvas.FastStroke)
+	canvas.FastStroke = true
+	for it := 0; it < c.N/2; it++ {
+		hw := genHW(c)
+		var p *canvas.Path
+		class := ""
+		switch c.Intn(4) {
+		case 0, 1: // dashes of an open or closed path
+			base := c.GenPath([]string{"L", "LQ", "LQCA", "LLZ"}[c.Intn(4)], 4, 1)
+			d := []float64{float64(1+c.Intn(8)) / 2, float64(1+c.Intn(6)) / 2}
+			if c.Bool() {
+				d = append(d, float64(1+c.Intn(4))/2, float64(1+c.Intn(4))/2)
+			}
+			p = base.Dash(c.Range(0, 3), d...)
+			class = "dashed"
+		case 2:
+			p = c.GenPath([]string{"LQCA", "LLLZ", "LQCAZ"}[c.Intn(3)], 4, 4)
+			class = "subpaths"
+		default:
+			p, _ = genTeardrop(c)
+			p = p.Append(c.GenPath("LQ", 3, 2))
+			class = "loop+subpaths"
+		}
+		stroke := c.Chance(0.75)
+		var sb strings.Builder
+		subs := p.Split()
+		nOpen, ok := 0, true
+		fmt.Fprintf(&sb, "PROTOM %s %d", hc.B(stroke), len(subs))
+		for _, pi := range subs {
+			segs, closed, good := statesOf(pi, hw)
+			if !good {
+				ok = false
+				break
+			}
+			if !closed && len(segs) > 0 {
+				nOpen++
+			}
+			fmt.Fprintf(&sb, " %s %d", hc.B(closed), len(segs))
+			for _, s := range segs {
+				sb.WriteByte(' ')
+				sb.WriteString(hc.Hs(s.p0.X, s.p0.Y, s.p1.X, s.p1.Y, s.n0.X, s.n0.Y, s.n1.X, s.n1.Y, s.r0, s.r1))
+			}
+		}
+		if !ok || len(subs) == 0 || len(subs) > 40 {
+			c.Count("protom:skip")
+			continue
+		}
+		var ev []string
+		var r *canvas.Path
+		msg := hc.Try(func() {
+			if stroke {
+				r = p.Stroke(2*hw, recCapper{canvas.ButtCap, &ev}, recJoiner{canvas.BevelJoin, &ev}, 0.01)
+			} else {
+				r = p.Offset(hw, 0.01)
+			}
+		})
+		if msg != "" {
+			c.Fail("panic:path-protocol", "Stroke/Offset panicked: "+msg, map[string]any{"P": p.String(), "hw": hw, "stroke": stroke})
+			continue
+		}
+		caps, joins := 0, 0
+		for _, e := range ev {
+			if e[0] == 'C' {
+				caps++
+			} else {
+				joins++
+			}
+		}
+		contours := len(r.Split())
+		out := fmt.Sprintf("%d %d %d", caps, joins, contours)
+		line := sb.String()
+		if !stroke {
+			// Offset uses the library's own ButtCap/RoundJoin: only the contour count is observable
+			line = "PROTOMC" + line[len("PROTOM"):]
+			out = fmt.Sprint(contours)
+		}
+		c.Case(line, "=", out)
+		c.Distinct(line)
+		c.Count(fmt.Sprintf("protom:%s stroke=%v", class, stroke))
+		if stroke && class == "dashed" {
+			c.Count(fmt.Sprintf("protom:dashed caps==2*open:%v", caps == 2*nOpen))
 		}
 	}
 }
